@@ -33,6 +33,9 @@ TRUSTED_BASE = [
     "test recorded as the specification of networkx GraphMatcher (isIsoMap); `list(s)[0]` is a member of the set (read off the observed sets)",
     "correspondence of the model with solve(): exact comparison of the observed loop state on every run, and of every entry's circuit (per-wire operation sequences) with the "
     "modelled entry `solver model on the LC graph ++ str_to_op(lc_check gates)` (driver command solver.altentry) — testing; the model of lc_check is compared in C09, the solver model in C02",
+    "when solve returns: theorems C10.alternate_target_returns_if_yes (target without isolated vertex, LC graphs in the orbits, is_lc_equivalent says yes on every pair => "
+    "the modelled solve returns) and C10.alternate_target_total_correct_partial (relative to C09 shortcut_complete_on_connected_statement: it returns and every entry is right); "
+    "on the observed runs every raise of solve() on a connected target is reported as a violation",
     "kept as regression: every entry is also passed through the verified validator (C02.validator_sound / C10.entry_validator_sound) and compiled by the real stabilizer backend; "
     "independent Python BFS over local complementations for orbit membership (n <= 7)",
 ]
